@@ -24,18 +24,22 @@ _BITVEC_SMALL = [
 
 UNWIND_CLASSES = {
     "default": [(r"memcmp", 33)],
+    "mem128": [(r"memcmp", 130)],
     "bitvec_small": _BITVEC_SMALL,
     # multi-proof harnesses: keys live in a 4-bit window but `path() <= path()` / shared_bits walk
     # whole 256-bit leaf paths; recursion of verify_range is bounded by the number of paths.
-    "multi_small": [
-        (r"verify_range", 4),
-    ] + _BITVEC_SMALL,
+    # functional harnesses over SymHash with 4..8-bit window keys
+    "func": [(r"symhash", 22), (r"rec:^nomt_core::proof::multi_proof::verify_range", 4)] + _BITVEC_SMALL,
+    "multi1": [(r"rec:^nomt_core::proof::multi_proof::verify_range", 2)] + _BITVEC_SMALL,
+    "multi2": [(r"rec:^nomt_core::proof::multi_proof::verify_range", 2)] + _BITVEC_SMALL,
+    "multi3": [(r"rec:^nomt_core::proof::multi_proof::verify_range", 3)] + _BITVEC_SMALL,
+    "multi_eq": [(r"rec:^nomt_core::proof::multi_proof::verify_range", 2), (r"partial_cmp", 258)] + _BITVEC_SMALL,
 }
 
 ASSUME_HAVOC = ("hash function over-approximated by HavocHash: every call returns an unconstrained 32-byte value "
                 "(superset of every real hasher; sound for panic-freedom)")
 ASSUME_SYMHASH = ("hash function modelled by SymHash: deterministic, collision-free in the low 255 bits on the "
-                  "queried points (<= 24 per harness), never zero; MSB tagging by the real BinaryHasher code")
+                  "queried points (<= 20 per harness), never zero; MSB tagging by the real BinaryHasher code")
 
 
 def K(harness, tier="quick", crate="core", **kw):
@@ -99,16 +103,37 @@ def _c18():
         ("c18_mv_1leaf_s0", "1 leaf path, 0 siblings", "quick", 6),
         ("c18_mv_1leaf_s2", "1 leaf path, 2 siblings", "quick", 6),
         ("c18_mv_1term_s1", "1 terminator(depth 3) path, 1 sibling", "quick", 6),
-        ("c18_mv_2leaf_s0", "2 leaf paths, 0 siblings", "quick", 24),
-        ("c18_mv_2leaf_s2", "2 leaf paths, 2 siblings", "quick", 24),
-        ("c18_mv_leafterm_s1", "leaf + terminator(depth 2), 1 sibling", "quick", 24),
-        ("c18_mv_2term_s1", "terminator(depth 1) + terminator(depth 3), 1 sibling", "quick", 24),
-        ("c18_mv_3leaf_s1", "3 leaf paths, 1 sibling", "thorough", 30),
         ("c18_mq_1leaf_s1", "1 leaf path, 1 sibling, + find_index_for/confirm_* on a symbolic query", "quick", 12),
         ("c18_mq_2leaf_s1", "2 leaf paths, 1 sibling, + find_index_for/confirm_* on a symbolic query", "thorough", 30),
     ]
+    mm = [
+        ("c18_mm_2leaf_s0_a", "2 leaf paths, 0 siblings, depth0 in {0,1,2,3}", "quick"),
+        ("c18_mm_2leaf_s0_b", "2 leaf paths, 0 siblings, depth0 in {5,256,257,MAX}", "quick"),
+        ("c18_mm_2leaf_s2_a", "2 leaf paths, 2 siblings, depth0 in {0,1,2,3}", "quick"),
+        ("c18_mm_2leaf_s2_b", "2 leaf paths, 2 siblings, depth0 in {5,256,257,MAX}", "quick"),
+        ("c18_mm_leafterm_s1_a", "leaf + terminator(depth 2), 1 sibling, depth0 in {0,1,2,3}", "quick"),
+        ("c18_mm_leafterm_s1_b", "leaf + terminator(depth 2), 1 sibling, depth0 in {5,256,257,MAX}", "quick"),
+        ("c18_mm_termleaf_s1_a", "terminator(depth 2) + leaf, 1 sibling, depth0 in {0,1,2,3}", "quick"),
+        ("c18_mm_2term_s1_a", "terminator(depth 1) + terminator(depth 3), 1 sibling, depth0 in {0,1,2,3}", "quick"),
+        ("c18_mm_2term_s1_b", "terminator(depth 1) + terminator(depth 3), 1 sibling, depth0 in {5,256,257,MAX}", "quick"),
+        ("c18_mm_2term_s0_a", "terminator(depth 2) + terminator(depth 4), 0 siblings, depth0 in {0,1,2,3}", "quick"),
+        ("c18_mm_3leaf_s1_a", "3 leaf paths, 1 sibling, depth0 in {1,2}, depth2 in {0,1,2,3}", "thorough"),
+        ("c18_mm_3mixed_s2_a", "terminator(2) + leaf + terminator(3), 2 siblings, depth0 in {1,2}, depth2 in {0,1,2,3}", "thorough"),
+    ]
+    for h, d, tier in mm:
+        obl.append(K("c18_multi::" + h, tier=tier, unwind=10, classes="multi3" if "3" in h.split("_")[2] else "multi2",
+                     timeout_s=1500 if tier == "quick" else 7200, mem_gb=12, memsafe=(tier != "quick"),
+                     desc="verify_multi_proof never panics: " + d + ", depth1 over the menu {0,1,2,3,5,256,257,usize::MAX}",
+                     bounds="shape: " + d + "; claimed depths concrete from the boundary menu (all combinations unrolled inside the "
+                            "harness), key bits symbolic in a 4-bit window (adjacent leaf keys distinct), siblings/values symbolic",
+                     functions=FM, assumes=[ASSUME_HAVOC, "adjacent leaf keys differ (identical keys: harness c18_mv_2leaf_equal)"]))
+    obl.append(K("c18_multi::c18_mv_2leaf_equal", unwind=10, classes="multi_eq", timeout_s=900, mem_gb=8, memsafe=False,
+                 desc="two leaf paths with the same symbolic 32-byte key are rejected, never panic",
+                 bounds="2 leaf paths, 1 sibling, symbolic depths, identical symbolic key; BitSlice::partial_cmp unwound 258",
+                 functions=FM, assumes=[ASSUME_HAVOC]))
     for h, d, tier, mem in mv:
-        obl.append(K("c18_multi::" + h, tier=tier, unwind=10, classes="multi_small", timeout_s=1500 if tier == "quick" else 7200,
+        cls = "multi3" if "3 leaf" in d else ("multi2" if h.startswith("c18_mv_2") or "leafterm" in h or "2leaf" in h else "multi1")
+        obl.append(K("c18_multi::" + h, tier=tier, unwind=10, classes=cls, timeout_s=1500 if tier == "quick" else 7200,
                      mem_gb=mem, memsafe=(tier != "quick"),
                      desc="verify_multi_proof (and queries) never panic: " + d,
                      bounds="shape: " + d + "; MultiPathProof::depth full-width symbolic usize; key bits symbolic in a 4-bit "
@@ -118,7 +143,211 @@ def _c18():
     return obl
 
 
+def _family(prefix, module, names, desc, bounds, functions, tier="quick", **kw):
+    out = []
+    for nm in names:
+        t = tier
+        if isinstance(nm, tuple):
+            nm, t = nm
+        out.append(K(module + "::" + prefix + nm, tier=t, desc=desc + " [" + nm + "]", bounds=bounds, functions=functions,
+                     assumes=[ASSUME_SYMHASH], **kw))
+    return out
+
+
+F_PATH = ["nomt_core::proof::path_proof::PathProof::verify", "nomt_core::proof::path_proof::hash_path",
+          "nomt_core::proof::path_proof::VerifiedPathProof::confirm_value",
+          "nomt_core::proof::path_proof::VerifiedPathProof::confirm_nonexistence",
+          "nomt_core::proof::path_proof::VerifiedPathProof::in_scope",
+          "nomt_core::hasher::BinaryHasher::hash_leaf", "nomt_core::hasher::BinaryHasher::hash_internal",
+          "nomt_core::hasher::node_kind_by_msb"]
+F_UPDATE = ["nomt_core::proof::path_proof::verify_update", "nomt_core::update::build_trie",
+            "nomt_core::update::leaf_ops_spliced", "nomt_core::proof::path_proof::shared_bits"]
+F_MULTI = ["nomt_core::proof::multi_proof::MultiProof::from_path_proofs", "nomt_core::proof::multi_proof::verify",
+           "nomt_core::proof::multi_proof::verify_range", "nomt_core::proof::multi_proof::verify_update",
+           "nomt_core::proof::multi_proof::hash_and_compact_terminal", "nomt_core::proof::multi_proof::CommonSiblings::advance",
+           "nomt_core::proof::multi_proof::VerifiedMultiProof::find_index_for",
+           "nomt_core::proof::multi_proof::VerifiedMultiProof::confirm_value",
+           "nomt_core::proof::multi_proof::VerifiedMultiProof::confirm_nonexistence"]
+SHAPE_BOUNDS = ("key-value set = one concrete trie topology from the shape menu (<= 4 pairs, terminal depth <= 3) with symbolic "
+                "key suffixes inside a %d-bit window (all other key bits zero) and symbolic value hashes; ")
+
+
+def _c08():
+    names = ["e_term0_s0", "e_leaf_s0", "e_term1_s1", "s1_leaf_s0", "s1_term0_s0", "s1_leaf_s1", "s2d0_leaf_s1",
+             "s2d0_term1_s1", "s2d0_leaf_s0", "s2d0_leaf_s2", "s2d1_leaf_s2", "s2d1_term1_s1", "s2d1_term2_s2",
+             "s2d1_leaf_s1", ("s2d1_term3_s3", "thorough"), ("s3a_leaf_s2", "thorough"), ("s3a_leaf_s1", "thorough"),
+             ("s3b_term2_s2", "thorough"), ("s3c_leaf_s3", "thorough"), ("s3c_term2_s2", "thorough")]
+    return _family("c08_ps_", "c08", names,
+                   "an arbitrary PathProof (terminal kind / terminator depth / sibling count fixed by the shape name, every byte "
+                   "symbolic, arbitrary 32-byte leaf key) that verifies against spec_root(S) only confirms true value / "
+                   "non-existence statements about S, for every lookup key and query key in the window",
+                   SHAPE_BOUNDS % 4 + "adversarial proof: <= 3 siblings", F_PATH,
+                   allow_unsat=["some proof verifies", "some in-scope query"],
+                   unwind=10, classes="func", timeout_s=1500, mem_gb=8, memsafe=False)
+
+
+def _c05():
+    names = ["e", "s1", "s1_absent", "s2d0_l", "s2d0_r", "s2d1_00", "s2d1_01", "s2d1_1", "s2d2_010", "s2d2_00", "s2d2_1",
+             ("s3a_0", "thorough"), ("s3a_11", "thorough"), "s3a_compressed", ("s3c_000", "thorough"), ("s3c_01", "thorough"),
+             ("s4b_001", "thorough")]
+    return _family("c05_hp_", "c05", names,
+                   "the honest path proof of the named terminal verifies against spec_root(S); confirm_value/confirm_nonexistence "
+                   "equal membership in S for every window key below the terminal and are KeyOutOfScope for every other key",
+                   SHAPE_BOUNDS % 4 + "terminal chosen by its index in the compressed trie", F_PATH,
+                   allow_unsat=["present key queried", "out-of-scope key queried"],
+                   unwind=10, classes="func", timeout_s=1500, mem_gb=8, memsafe=False)
+
+
+def _c02():
+    names = ["e", "s1", "s2d0", "s2d1", "s2d1r", "s2d2", ("s3a", "thorough"), ("s3b", "thorough"), ("s3c", "thorough"),
+             ("s4a", "thorough"), ("s4b", "thorough")]
+    bt = _family("c02_bt_", "c02", names,
+                 "build_trie(0, sorted pairs) == spec_root(S); root visited last; visitor up/down stream replays on a "
+                 "TriePosition without panic, each leaf written at a prefix of its key, ends at the sub-trie root",
+                 SHAPE_BOUNDS % 8, ["nomt_core::update::build_trie", "nomt_core::update::shared_bits",
+                                    "nomt_core::trie_pos::TriePosition::up", "nomt_core::trie_pos::TriePosition::down",
+                                    "nomt_core::trie_pos::TriePosition::subtrie_contains"],
+                 unwind=12, classes="func", timeout_s=1500, mem_gb=8, memsafe=False)
+    for o in bt:
+        if o["tier"] == "thorough":
+            o.update(mem_gb=20, timeout_s=7200)
+    vc = [K("c02::c02_vc_" + n, tier=t, unwind=12, classes="func", timeout_s=3600, mem_gb=16, memsafe=False,
+            desc="build_trie's visitor (up, down) stream replayed on a TriePosition never panics, writes each leaf at a prefix "
+                 "of its key and ends at the sub-trie root [" + n + "]", bounds=SHAPE_BOUNDS % 8,
+            functions=["nomt_core::update::build_trie", "nomt_core::trie_pos::TriePosition::up",
+                       "nomt_core::trie_pos::TriePosition::down", "nomt_core::trie_pos::TriePosition::subtrie_contains"],
+            assumes=[ASSUME_HAVOC]) for n, t in [("s2d1", "thorough"), ("s3a", "thorough"), ("s3c", "thorough")]]
+    return bt + vc
+
+
+RB_NAMES = ["s1_insert", "s1_overwrite", "s1_delete", "s1_delete_absent", "s2d0_split", "s2d1_split", "s2d2_split",
+            "s2d1_collapse", "s2d2_collapse", "s2d0_clear", "s2d0_both", ("s3a_delete_left", "thorough"),
+            ("s3a_insert_mid", "thorough"), ("s3b_collapse_left", "thorough"), ("s3c_delete_deep", "thorough"),
+            ("s4a_mixed", "thorough")]
+
+
+def _c06():
+    return _family("c06_rb_", "c06", RB_NAMES,
+                   "witness replay: honest paths of the before-trie verify against prev_root, confirm reads as the before-set "
+                   "says, and verify_update(prev_root, paths+ops) == spec_root(after-set) built from scratch",
+                   SHAPE_BOUNDS % 4 + "before/after/touched masks concrete per harness, new values symbolic",
+                   F_PATH + F_UPDATE, unwind=10, classes="func", timeout_s=1500, mem_gb=10, memsafe=False)
+
+
+def _c07():
+    mq = [("e"), ("s1"), ("s2d0_both"), ("s2d0_left"), ("s2d1_all", "thorough"), ("s2d1_leaves"), ("s2d1_leaf_term", "thorough"),
+          ("s3a_all", "thorough"), ("s3c_outer", "thorough"), ("s4a_all", "thorough")]
+    mu = [("s1_insert"), ("s1_overwrite"), ("s2d0_split"), ("s2d0_split_x", "thorough"), ("s2d1_collapse", "thorough"),
+          ("s2d0_both", "thorough"), ("s3a_delete_left", "thorough"), ("s3b_collapse_left", "thorough")]
+    a = _family("c07_mq_", "c07", mq,
+                "MultiProof::from_path_proofs(honest proofs of the listed terminals) verifies against spec_root(S); confirm_value / "
+                "confirm_nonexistence / find_index_for / *_with_index agree with the individual VerifiedPathProofs for every window key",
+                SHAPE_BOUNDS % 4 + "aggregated terminal subset concrete", F_PATH + F_MULTI,
+                unwind=10, classes="func", timeout_s=2400, mem_gb=16, memsafe=False)
+    b = _family("c07_mu_", "c07", mu,
+                "verify_multi_proof_update == verify_update over the per-path proofs == spec_root(after-set)",
+                SHAPE_BOUNDS % 4 + "before/after/touched masks concrete, new values symbolic", F_PATH + F_MULTI + F_UPDATE,
+                unwind=10, classes="func", timeout_s=2400, mem_gb=16, memsafe=False)
+    return a + b
+
+
+def M(name, func, desc, bounds, tier="quick", **kw):
+    d = dict(engine="M", name=name, module="kernels", func=func, tier=tier, desc=desc, bounds=bounds)
+    d.update(kw)
+    return d
+
+
+ASSUME_M = ("MIR semantics as encoded by /verif/mirsmt/mir.py (validated on concrete inputs against the natively executed real "
+            "function on every run); rustc's MIR is the code: `cargo +nightly rustc -Zunpretty=mir -C overflow-checks=on`")
+
+M_OVERFLOW = M("overflow_pages", "overflow_pages",
+               "total_needed_pages / needed_pages: no checked operation overflows, no division by zero; the greedy layout "
+               "chunk() writes is consistent with P = total_needed_pages(v): the value fits (assert after the loop) and every "
+               "page receives value bytes (assert inside the loop, reader's length asserts); needed_pages is the ceiling; "
+               "leaf/overflow size constants are mutually consistent",
+               "full domain 1 <= value_size <= MAX_OVERFLOW_VALUE_SIZE (2^29); integer encoding with the MIR's own overflow "
+               "obligations discharged; constants read from the MIR const bodies", assumes=[ASSUME_M])
+M_SHARD = M("shard_index", "shard_index",
+            "page_cache::shard_index_for(n, c): no overflow / division by zero, result < n, and c lies in the consecutive "
+            "child range of the returned shard; the ranges tile 0..64 without gap or overlap",
+            "1 <= commit_concurrency n <= 64, root child 0 <= c < 64 (all of them, symbolically)", assumes=[ASSUME_M])
+M_SHARD_SPEC = M("shard_regions_spec", "shard_regions_spec",
+                 "the range formula used as oracle equals what the real shard_regions(n) returns (child counts per shard)",
+                 "n = 1..64 enumerated completely (natively executed real function): oracle validation, not the deciding step",
+                 assumes=[])
+M_META_BYTE = M("meta_byte", "meta_byte",
+                "bitbox::meta_map::full_entry(h) never equals EMPTY or TOMBSTONE, has the top bit set and preserves hash bits 57..63",
+                "every u64 hash (bit-vector encoding)", assumes=[ASSUME_M])
+
+
+def _nomt_family(module, names, desc, bounds, functions, **kw):
+    out = []
+    for nm in names:
+        t = "quick"
+        if isinstance(nm, tuple):
+            nm, t = nm
+        out.append(K(module + "::" + nm, crate="nomt", tier=t, desc=desc + " [" + nm + "]", bounds=bounds,
+                     functions=functions, assumes=["page pool replaced by the verif-hooks page source (leaked 4096-byte aligned "
+                                                   "allocations); no mmap / thread-local free lists"], **kw))
+    return out
+
+
+F_LEAF = ["nomt::beatree::leaf::node::LeafBuilder::new", "nomt::beatree::leaf::node::LeafBuilder::push_cell",
+          "nomt::beatree::leaf::node::LeafBuilder::finish", "nomt::beatree::leaf::node::LeafNode::{n,key,value,values_size,cell_pointers}",
+          "nomt::beatree::leaf::node::encode_cell_pointer", "nomt::beatree::leaf::node::cell_offset"]
+K_LEAF_ACC = _nomt_family("c01_leaf", ["c01_leaf_acc_n0", "c01_leaf_acc_n2_v3_4", "c01_leaf_acc_n3_v1_0_8"],
+                          "leaf page built by LeafBuilder::push_cell: n(), key(i), value(i) (bytes + overflow flag), values_size agree "
+                          "with the model", "n <= 3 cells, keys symbolic in 3 bytes (strictly increasing), value bytes and overflow "
+                          "flags symbolic, value lengths concrete per harness, page content before the build arbitrary (4096 symbolic bytes)",
+                          F_LEAF, unwind=36, classes="default", timeout_s=900, mem_gb=12,
+                          allow_unsat=["absent key looked up", "present key looked up", "layout checked"])
+K_LEAF_LAYOUT = _nomt_family("c01_leaf", ["c16_leaf_layout_n0", "c16_leaf_layout_n1_v0", "c16_leaf_layout_n2_v3_4", "c16_leaf_layout_n3_v4_4_4"],
+                             "the built leaf page decodes by the documented layout alone (independent decoder): header n, cell pointer = "
+                             "key ++ le16(offset | overflow<<15), offsets increasing from 4096-sum(len), last cell ends at 4096, pointer "
+                             "area below the first cell", "n <= 3 cells, symbolic keys/values/flags, concrete lengths, arbitrary prior page content",
+                             F_LEAF, unwind=36, classes="default", timeout_s=900, mem_gb=12,
+                             allow_unsat=["absent key looked up", "present key looked up", "accessors checked"])
+K_META = _nomt_family("c16_meta", ["c16_meta_roundtrip", "c16_meta_decode_encode", "c16_meta_create_new"],
+                      "meta page: decode(encode(m)) == m on every field for arbitrary m and arbitrary surrounding bytes; documented field "
+                      "offsets (independent little-endian decoder); encode(decode(b)) == b for every 64-byte b; create_new gives the "
+                      "documented initial state", "every field full-width symbolic; 96-byte symbolic buffer",
+                      ["nomt::store::meta::Meta::encode_to", "nomt::store::meta::Meta::decode", "nomt::store::meta::Meta::create_new"],
+                      unwind=100, classes="mem128", timeout_s=600, mem_gb=4)
+
+_KANI_EXPL = ("Bounded model checking (Kani 0.68 / CBMC 6.11 / cadical) of the real nomt-core code compiled from /repo; the "
+              "oracle is the specification's trie written as data (shape.rs) and hashed through the same symbolic random oracle.")
+
 PROPERTIES = {
+    "C08": {"level": "model_checking", "obligations": _c08(), "explanation": _KANI_EXPL,
+            "outside": ["sets/sibling lists larger than the shape menu", "key material beyond the window",
+                        "multi-proof soundness (thorough tier only, where listed)", "hashers whose node_kind is not MSB tagging"]},
+    "C05": {"level": "model_checking", "obligations": _c05(), "explanation": _KANI_EXPL,
+            "outside": ["that the store produces the honest proof (seek over pages, overlays, cold cache, elided pages)",
+                        "shapes beyond the menu"]},
+    "C02": {"level": "model_checking", "obligations": _c02() + [dict(o, harness=o["harness"]) for o in []], "explanation": _KANI_EXPL,
+            "outside": ["page elision / reconstruction, multi-level page trees, worker hand-off, compute_root_node at open",
+                        "shapes beyond the menu"]},
+    "C06": {"level": "model_checking", "obligations": _c06(), "explanation": _KANI_EXPL,
+            "outside": ["store-side witness assembly (sibling patching, path_index offsets across workers)", "shapes beyond the menu"]},
+    "C07": {"level": "model_checking", "obligations": _c07(), "explanation": _KANI_EXPL,
+            "outside": ["sets beyond the shape menu", "'and as the store itself' (store-side root)"]},
+    "C01": {"level": "model_checking", "obligations": K_LEAF_ACC + [M_OVERFLOW],
+            "explanation": "Solver decisions over the pure steps lookups/updates are composed of: Kani/CBMC over the real leaf-page "
+                           "codec, z3 over the MIR of the overflow-page arithmetic.",
+            "outside": ["multi-commit histories through threads and files", "staged/secondary lookup shadowing, leaf/branch stages, "
+                        "bulk split, branch updater, overflow page I/O", "LeafNode::get (binary search at symbolic offsets into a 4096-byte "
+                        "page exhausts CBMC's propositional reduction: measured OOM at 24 GB) - see DESIGN.md"]},
+    "C13": {"level": "model_checking", "obligations": [M_SHARD, M_SHARD_SPEC],
+            "explanation": "Configuration arithmetic only: the mapping of root children to commit workers / cache shards is decided "
+                           "symbolically for every worker count 1..64 and every child.",
+            "outside": ["every schedule", "warm-up, extend-range protocol, eviction, io_workers, hasher choice", "cross-configuration "
+                        "equality of roots"]},
+    "C16": {"level": "model_checking", "obligations": K_META + K_LEAF_LAYOUT + [M_META_BYTE],
+            "explanation": "Format kernels: each encoder's output decodes, by the documented layout alone, to what was encoded, for "
+                           "arbitrary garbage in unwritten bytes (Kani/CBMC over the real encoders; z3 over MIR for tag bytes).",
+            "outside": ["whole-image invariants: exactly one leaf per key across leaves, no page both free and used, reachability of "
+                        "every stored merkle page, equality with the reference trie", "branch page, free-list page, WAL blob, PageDiff "
+                        "codecs (not built in this revision)"]},
     "C18": {
         "level": "model_checking",
         "obligations": _c18(),
